@@ -344,10 +344,60 @@ func (r *Run) runCase(monitor string, i int, body func(w *W, i int), maxSamp int
 			if len(st) > 3000 {
 				st = st[:3000]
 			}
+			if panicInHarness(st) {
+				// the panic was raised by harness code (generator, oracle, monitor), not by the
+				// library or by something the library called: a defect of the machinery,
+				// never a verdict on the property
+				r.Inconclusive("harness panic in monitor %s case %d: %v | %s", monitor, i, e, firstFrames(st, 6))
+				return
+			}
 			w.Fail("panic:"+monitor, fmt.Sprintf("unexpected panic: %v", e), "stack", st)
 		}
 	}()
 	body(w, i)
+}
+
+// panicInHarness inspects a stack captured in a deferred recover: the frames
+// between the runtime's panic entry and the first frame of either the library or
+// the harness decide who raised it.  Library first (possibly below standard
+// library frames the library called) => the library panicked.
+func panicInHarness(stack string) bool {
+	lines := strings.Split(stack, "\n")
+	seenPanic := false
+	for _, l := range lines {
+		if strings.HasPrefix(l, "\t") || l == "" {
+			continue
+		}
+		if !seenPanic {
+			if strings.HasPrefix(l, "panic(") || strings.HasPrefix(l, "runtime.sigpanic") || strings.HasPrefix(l, "runtime.panic") || strings.HasPrefix(l, "runtime.goPanic") {
+				seenPanic = true
+			}
+			continue
+		}
+		if strings.HasPrefix(l, "runtime.") || strings.HasPrefix(l, "panic(") {
+			continue
+		}
+		if strings.HasPrefix(l, "gitlab.com/yawning/secp256k1-voi") {
+			return false
+		}
+		if strings.HasPrefix(l, "verifharness/") {
+			return true
+		}
+	}
+	return false
+}
+
+func firstFrames(stack string, n int) string {
+	var out []string
+	for _, l := range strings.Split(stack, "\n") {
+		if l != "" && !strings.HasPrefix(l, "\t") && !strings.HasPrefix(l, "goroutine ") {
+			out = append(out, l)
+		}
+	}
+	if len(out) > n+3 {
+		out = out[3 : n+3]
+	}
+	return strings.Join(out, " <- ")
 }
 
 // Panics runs f and reports whether it panicked (and with what).
